@@ -17,10 +17,12 @@ import c09_cluster as tr_cluster  # noqa: E402
 ID = "C09"
 PROPS_FILES = ["Gama/Props/C09.lean", "Gama/Props/C09Solvers.lean", "Gama/Props/C09Net.lean", "Gama/Props/C09Cluster.lean",
                "Gama/Props/C09SvdDecompose.lean",
-               "Gama/Props/C09NetScaling.lean", "Gama/Props/C09NetWitness.lean", "Gama/Props/C09InputGap.lean"]
+               "Gama/Props/C09NetScaling.lean", "Gama/Props/C09NetWitness.lean", "Gama/Props/C09InputGap.lean",
+               "Gama/Props/C09Xml.lean", "Gama/Props/C09Correlated.lean"]
 LEAN_TARGETS = ["Gama.Props.C09", "Gama.Props.C09Solvers", "Gama.Props.C09Net", "Gama.Props.C09Cluster",
                 "Gama.Props.C09SvdDecompose",
-                "Gama.Props.C09NetScaling", "Gama.Props.C09NetWitness", "Gama.Props.C09InputGap"]
+                "Gama.Props.C09NetScaling", "Gama.Props.C09NetWitness", "Gama.Props.C09InputGap",
+                "Gama.Props.C09Xml", "Gama.Props.C09Correlated"]
 DRIVERS = ["drv_stats"]
 RULE = ("generated noisy networks (2D direction/distance fixed and free, small-dof intersections, levelling, "
         "correlated coordinate clusters) x sigma-act x conf-pr in (0,1) x sigma-apr in {0.1..100} x 4 algorithms; "
@@ -52,6 +54,11 @@ TRUSTED = [
     "Observation::stdDev -> Gama/Gen/ClusterUpdate.lean: statement order of the loop body incl. the position of "
     "`p->cluster_index = index++` relative to `if (p->active())`), validated by executing its output (drv_stats op `cidx`) "
     "next to the C++ on every adjusted observation",
+    "tools/gen/c09_stats.py gen_xml_sites (localnetworkxml.cpp -> Gama/Gen/StatsXmlSites.lean; uses tools/gen/c12_sites.py "
+    "parse_sites for the operand sites, resolves local variables textually by the nearest preceding definition in the writer "
+    "function, `*= sc` is the only accepted modification) and the hand tables Stats.Xml.classifyTable / expected of "
+    "Lemmas/StatsXml.lean (accessor expression -> formula, tag -> formula); validated end to end by the XML oracle, which "
+    "recomputes every such field from the other fields",
 ]
 MODELLED = [
     "values of GNU_gama::Normal / Student: the driver is given their values at the argument the code must use; in the "
@@ -85,12 +92,23 @@ LEVEL_TEXT = ("Lean 4 theorems over the reals about every statistic formula of L
               "weights of the adjustment: the loop of Cluster::update() and Cluster::stdDev are regenerated from obsdata.h and "
               "proved to give every observation its position in the FULL list and its OWN variance for every activity pattern, "
               "equal entry by entry to the facade model's obsStdDev (index list of activeCov()); the harness feeds the model the "
-              "own variance found by pointer search, independent of cluster_index.")
+              "own variance found by pointer search, independent of cluster_index. "
+              "Round 9: the statistic fields of the XML writer are tied to the formulas - every numeric operand of "
+              "equations_summary / std_dev_summary / std_error_ellipses / observations and <flt> is regenerated with its local "
+              "variables resolved to LocalNetwork accessor calls (Gen/StatsXmlSites.lean), joined by a kernel-evaluated decide with "
+              "C12's operand table (Gen/XmlSites.lean) and mapped to the StatsGen formula its tag names; "
+              "C09_xml_statistics_are_model_statistics states the value of every field on netSolve's answer. "
+              "Correlated clusters (finding C09-F1/C07-F2) are quantified: the coded sigma_L^2 = m0^2 B_nn C_nn equals the variance "
+              "m0^2 (L B L')_nn of the adjusted observation for every hat matrix iff row n of the cluster's Cholesky factor is diagonal "
+              "(iff the observation is uncorrelated with its predecessors), and |difference| <= m0^2 (2 l_nn sqrt(B_nn R) + R), R = squared "
+              "norm of the strictly lower part of that row (Props/C09Correlated.lean, also at netSolve level).")
 LEVEL_NOTE = ("Not covered by the theorems: the values of the Normal/Student quantiles beyond what C17 proves, IEEE rounding; "
               "the solver facts are cited from C01/C03/C20 under their hypotheses (svd: the factors Svd.decompose returns with unambiguous singular values - no certificate; "
               "convergence of its QR iteration is not proved). The absolute pivot tolerances of the envelope / cholesky kernels "
               "break the sigma-apr invariance on the real code for extreme weights: known finding C09-F2. sigma_L of observations in clusters with a non-diagonal "
-              "covariance matrix uses the uncorrelated formula in the C++ (theorem _partial; see report).")
+              "covariance matrix uses the uncorrelated formula in the C++ (characterised and bounded in Props/C09Correlated.lean; known finding C09-F1). "
+              "The guards under which <std-residual> (f >= 0.1) and <err-obs>/<err-adj> (bandWidth() == 0 and f >= 5 or outlying) are printed, "
+              "and the chi-square bounds <lower>/<upper>, are not in the table.")
 TECHNIQUE = "Lean 4 proof (real analysis: Complex.arg half-angle, sqrt) + source-to-Lean translator + correspondence + XML oracle"
 
 ALGS = ["gso", "svd", "cholesky", "envelope"]
@@ -1833,7 +1851,8 @@ def props_current(ctx):
     gen = ctx.lean / "Gama" / "Gen" / "StatsGen.lean"
     gen2 = ctx.lean / "Gama" / "Gen" / "ClusterUpdate.lean"
     try:
-        for n, g in (("C09", gen), ("C09Solvers", gen), ("C09Cluster", gen2)):
+        gen3 = ctx.lean / "Gama" / "Gen" / "StatsXmlSites.lean"
+        for n, g in (("C09", gen), ("C09Solvers", gen), ("C09Cluster", gen2), ("C09Xml", gen3)):
             olean = ctx.lean / ".lake" / "build" / "lib" / "lean" / "Gama" / "Props" / (n + ".olean")
             src = ctx.lean / "Gama" / "Props" / (n + ".lean")
             if olean.stat().st_mtime < max(g.stat().st_mtime, src.stat().st_mtime):
